@@ -26,6 +26,7 @@ func vAssume(c bool)
 func vAssert(c bool, msg string)
 func vReach(tag string)
 func vYield()
+func vClockMax(ns int64)
 func vQuiesce()
 func vObserve(tag string, v interface{})
 func vSymbolic() bool
@@ -146,6 +147,7 @@ func vAssert(c bool, msg string) {
 }
 func vReach(tag string) {}
 func vYield()           { runtime.Gosched() }
+func vClockMax(int64)   {}
 func vQuiesce() {
 	for i := 0; i < 20; i++ {
 		runtime.Gosched()
